@@ -79,6 +79,7 @@ func (c *Connection) closeSend() {
 		c.sendClosed = true
 		close(c.send)
 	}
+	verifStep("CloseSend", c)
 	c.sendMu.Unlock()
 }
 
@@ -88,12 +89,15 @@ func (c *Connection) trySend(message []byte) bool {
 	c.sendMu.RLock()
 	defer c.sendMu.RUnlock()
 	if c.sendClosed {
+		verifStep("TrySend", c, false)
 		return false
 	}
 	select {
 	case c.send <- message:
+		verifStep("TrySend", c, true)
 		return true
 	default:
+		verifStep("TrySend", c, false)
 		return false
 	}
 }
@@ -103,12 +107,14 @@ func (c *Connection) trySend(message []byte) bool {
 func (c *Connection) markClosed() {
 	c.roomsMu.Lock()
 	c.closed = true
+	verifStep("MarkClosed", c)
 	c.roomsMu.Unlock()
 }
 
 func (c *Connection) leaveAllRooms() {
 	c.roomsMu.Lock()
 	c.rooms = make(map[string]bool)
+	verifStep("ClearView", c)
 	c.roomsMu.Unlock()
 }
 
@@ -292,11 +298,13 @@ func (c *Connection) Send(message []byte) error {
 	c.sendMu.RLock()
 	defer c.sendMu.RUnlock()
 	if c.sendClosed {
+		verifStep("Send", c, "closed")
 		return ErrConnectionClosed
 	}
 
 	select {
 	case c.send <- message:
+		verifStep("Send", c, "queued")
 		return nil
 	default:
 		// Channel is full, apply backpressure strategy
@@ -378,6 +386,7 @@ func (c *Connection) JoinRoom(roomName string) {
 
 	if c.closed {
 		log.Printf("[WS] Connection %s is closed, not joining room %s", c.ID, roomName)
+		verifStep("JoinRefused", c, roomName)
 		return
 	}
 
@@ -389,6 +398,7 @@ func (c *Connection) JoinRoom(roomName string) {
 		return
 	}
 	c.rooms[roomName] = true
+	verifStep("ViewAdd", c, roomName)
 	log.Printf("[WS] Connection %s joined room %s", c.ID, roomName)
 }
 
@@ -397,6 +407,7 @@ func (c *Connection) LeaveRoom(roomName string) {
 	c.roomsMu.Lock()
 	defer c.roomsMu.Unlock()
 	delete(c.rooms, roomName)
+	verifStep("ViewDel", c, roomName)
 
 	// Remove from room manager synchronously
 	rm := c.hub.GetRoomManager()
